@@ -656,14 +656,15 @@ func ExecutePlan(plan *Plan, p ExecuteParams) (result *Result) {
 			plan:           plan,
 		}
 
-		data := executePlannedSelection(eCtx, plan.root, p.Root, plan.rootType, nil)
-		// Mutations run serially with each field's result
-		// dethunked depth-first; queries run all then dethunk
-		// breadth-first. The traversal here just runs the appropriate
-		// dethunker on the assembled map.
+		// Mutations run serially: each top-level field's result is
+		// dethunked depth-first before the next field's resolver starts
+		// (see executePlannedSelection). Queries run all fields, then
+		// dethunk breadth-first.
+		var data map[string]interface{}
 		if plan.isMutation {
-			dethunkMapDepthFirst(data)
+			data = executePlannedSelection(eCtx, plan.root, p.Root, plan.rootType, nil, true)
 		} else {
+			data = executePlannedSelection(eCtx, plan.root, p.Root, plan.rootType, nil, false)
 			dethunkMapWithBreadthFirstTraversal(data)
 		}
 		out.Data = data
@@ -687,7 +688,7 @@ func ExecutePlan(plan *Plan, p ExecuteParams) (result *Result) {
 // Mutation vs. query traversal is handled at the top level in
 // ExecutePlan via dethunkMapDepthFirst / dethunkMapWithBreadthFirstTraversal,
 // so this walker is the same for both.
-func executePlannedSelection(eCtx *executionContext, sp *selectionPlan, source interface{}, parentType *Object, path *ResponsePath) map[string]interface{} {
+func executePlannedSelection(eCtx *executionContext, sp *selectionPlan, source interface{}, parentType *Object, path *ResponsePath, serial bool) map[string]interface{} {
 	if sp == nil {
 		return map[string]interface{}{}
 	}
@@ -709,6 +710,11 @@ func executePlannedSelection(eCtx *executionContext, sp *selectionPlan, source i
 		resolved, ok := resolvePlannedField(eCtx, parentType, source, fp, fieldPath)
 		if !ok {
 			continue
+		}
+		if serial {
+			// everything this field deferred takes effect before the next
+			// field starts, in document order rather than map order
+			resolved = dethunkValueDepthFirst(resolved)
 		}
 		finalResults[fp.responseKey] = resolved
 	}
@@ -921,7 +927,7 @@ func completePlannedObjectValue(eCtx *executionContext, returnType *Object, fp *
 		}
 	}
 	if fp.sub != nil {
-		return executePlannedSelection(eCtx, fp.sub, result, returnType, path)
+		return executePlannedSelection(eCtx, fp.sub, result, returnType, path, false)
 	}
 	// Fallback: planner didn't precompute (e.g. selection set was
 	// empty per validation, which shouldn't reach here for object
@@ -957,7 +963,7 @@ func completePlannedAbstractValue(eCtx *executionContext, returnType Abstract, f
 	// planMergedFieldChildren.
 	if eCtx.plan != nil {
 		if sub := eCtx.plan.abstractAlternative(fp, runtimeType); sub != nil {
-			return executePlannedSelection(eCtx, sub, result, runtimeType, path)
+			return executePlannedSelection(eCtx, sub, result, runtimeType, path, false)
 		}
 	}
 	// The concrete type contributes no selectable fields (e.g. only
